@@ -1269,7 +1269,14 @@ class Utf8Str:
     def __len__(self):
         if self.concrete():
             return len(self.to_str())
-        raise EngineUnsupported("len() (code points) of symbolic string")
+        # code points of valid UTF-8 = bytes that are not continuation bytes (10xxxxxx)
+        n = 0
+        for b in self.items:
+            if isinstance(b, int):
+                n = n + (0 if (b & 0xC0) == 0x80 else 1)
+            else:
+                n = n + sym_ite((b & 0xC0) == 0x80, 0, 1)
+        return n.__index__() if isinstance(n, SymInt) else n
 
     def __repr__(self):
         if self.concrete():
